@@ -78,6 +78,13 @@ func genC13(w *World, res *CheckResult) {
 	tmp := &CheckResult{Extra: map[string]interface{}{}}
 	genC10(w, tmp)
 	res.Obls = append(res.Obls, selectObls(tmp.Obls, `^ast\.Patch\[`, `^module/rewrites-go-through-ast\.Patch$`)...)
+	// (c2) errors the optimizer raises at compile time carry the location of the failing operation (cells of C02)
+	{
+		tmp2 := &CheckResult{Extra: map[string]interface{}{}}
+		genC02(w, tmp2)
+		res.Obls = append(res.Obls, selectObls(tmp2.Obls, `^optimizer\.fold\[.*\]/post:error-at-operator$`)...)
+		res.Functions = append(res.Functions, "optimizer.fold.Exit")
+	}
 	// (d) the VM reports the location recorded for the opcode being executed: pp is the offset of that opcode
 	g := genRun(w)
 	res.Obls = append(res.Obls, selectObls(g.obls, `/post\[ip\]$`, `^vm\.VM\.Run/pre-sat$`)...)
